@@ -255,7 +255,9 @@ macro_rules! impl_rank_small_sel {
                     + BitLength
                     + NumBits
                     + SelectHinted,
-            > SelectUnchecked for SelectSmall<$NUM_U32S, $COUNTER_WIDTH, C>
+                I: AsRef<[u32]>,
+                O: AsRef<[usize]>,
+            > SelectUnchecked for SelectSmall<$NUM_U32S, $COUNTER_WIDTH, C, I, O>
         {
             unsafe fn select_unchecked(&self, rank: usize) -> usize {
                 let upper_counts = self.small_counters.upper_counts();
@@ -355,13 +357,20 @@ macro_rules! impl_rank_small_sel {
                     + BitLength
                     + NumBits
                     + SelectHinted,
-            > Select for SelectSmall<$NUM_U32S, $COUNTER_WIDTH, C>
+                I: AsRef<[u32]>,
+                O: AsRef<[usize]>,
+            > Select for SelectSmall<$NUM_U32S, $COUNTER_WIDTH, C, I, O>
         {
         }
     };
 }
 
-impl<C: SmallCounters<2, 9> + AsRef<[usize]> + BitLength + NumBits> SelectSmall<2, 9, C> {
+impl<
+        C: SmallCounters<2, 9> + AsRef<[usize]> + BitLength + NumBits,
+        I: AsRef<[u32]>,
+        O: AsRef<[usize]>,
+    > SelectSmall<2, 9, C, I, O>
+{
     #[inline(always)]
     unsafe fn complete_select(
         &self,
@@ -401,8 +410,11 @@ impl<C: SmallCounters<2, 9> + AsRef<[usize]> + BitLength + NumBits> SelectSmall<
     }
 }
 
-impl<C: SmallCounters<1, 9> + AsRef<[usize]> + BitLength + NumBits + SelectHinted>
-    SelectSmall<1, 9, C>
+impl<
+        C: SmallCounters<1, 9> + AsRef<[usize]> + BitLength + NumBits + SelectHinted,
+        I: AsRef<[u32]>,
+        O: AsRef<[usize]>,
+    > SelectSmall<1, 9, C, I, O>
 {
     #[inline(always)]
     unsafe fn complete_select(
@@ -436,8 +448,11 @@ impl<C: SmallCounters<1, 9> + AsRef<[usize]> + BitLength + NumBits + SelectHinte
     }
 }
 
-impl<C: SmallCounters<1, 10> + AsRef<[usize]> + BitLength + NumBits + SelectHinted>
-    SelectSmall<1, 10, C>
+impl<
+        C: SmallCounters<1, 10> + AsRef<[usize]> + BitLength + NumBits + SelectHinted,
+        I: AsRef<[u32]>,
+        O: AsRef<[usize]>,
+    > SelectSmall<1, 10, C, I, O>
 {
     #[inline(always)]
     unsafe fn complete_select(
@@ -471,8 +486,11 @@ impl<C: SmallCounters<1, 10> + AsRef<[usize]> + BitLength + NumBits + SelectHint
     }
 }
 
-impl<C: SmallCounters<1, 11> + AsRef<[usize]> + BitLength + NumBits + SelectHinted>
-    SelectSmall<1, 11, C>
+impl<
+        C: SmallCounters<1, 11> + AsRef<[usize]> + BitLength + NumBits + SelectHinted,
+        I: AsRef<[u32]>,
+        O: AsRef<[usize]>,
+    > SelectSmall<1, 11, C, I, O>
 {
     #[inline(always)]
     unsafe fn complete_select(
@@ -506,8 +524,11 @@ impl<C: SmallCounters<1, 11> + AsRef<[usize]> + BitLength + NumBits + SelectHint
     }
 }
 
-impl<C: SmallCounters<3, 13> + AsRef<[usize]> + BitLength + NumBits + SelectHinted>
-    SelectSmall<3, 13, C>
+impl<
+        C: SmallCounters<3, 13> + AsRef<[usize]> + BitLength + NumBits + SelectHinted,
+        I: AsRef<[u32]>,
+        O: AsRef<[usize]>,
+    > SelectSmall<3, 13, C, I, O>
 {
     unsafe fn complete_select(
         &self,
